@@ -157,8 +157,20 @@ struct BodyV<'a> {
     call_of: std::collections::HashMap<usize, (usize, usize)>,
     consts: Vec<String>,
     and_thens: Vec<String>,
+    calls: Vec<String>,
+    returns: u32,
+    tries: u32,
+    in_closure: u32,
 }
 impl<'a, 'ast> Visit<'ast> for BodyV<'a> {
+    fn visit_expr_return(&mut self, e: &'ast syn::ExprReturn) {
+        if self.in_closure == 0 { self.returns += 1; }
+        visit::visit_expr_return(self, e);
+    }
+    fn visit_expr_try(&mut self, e: &'ast syn::ExprTry) {
+        if self.in_closure == 0 { self.tries += 1; }
+        visit::visit_expr_try(self, e);
+    }
     fn visit_item_fn(&mut self, _i: &'ast syn::ItemFn) {
         // nested fn items are reported (count only); they are not descended into
         self.nested_fns += 1;
@@ -178,12 +190,29 @@ impl<'a, 'ast> Visit<'ast> for BodyV<'a> {
     fn visit_expr_loop(&mut self, e: &'ast syn::ExprLoop) {
         let b = self.src.span(e.body.brace_token.span.join());
         let kw = self.src.span(e.loop_token.span);
+        // `loop { if C { break; } REST }` (the desugared form of `while !C { REST }`): report the leading guard so that the
+        // splicer can normalise it back (R16)
+        let mut head_break = "null".to_string();
+        if let Some(first) = e.body.stmts.first() {
+            let (ex, stmt_span) = match first {
+                syn::Stmt::Expr(ex, _) => (Some(ex), self.src.span(first.span())),
+                _ => (None, (0, 0)),
+            };
+            if let Some(syn::Expr::If(i)) = ex {
+                let plain_break = i.then_branch.stmts.len() == 1
+                    && matches!(&i.then_branch.stmts[0], syn::Stmt::Expr(syn::Expr::Break(b), _) if b.label.is_none() && b.expr.is_none());
+                if i.else_branch.is_none() && plain_break && !matches!(&*i.cond, syn::Expr::Let(_)) && e.label.is_none() {
+                    head_break = format!("{{\"stmt\":{},\"cond\":{}}}", sp(stmt_span), sp(self.src.span(i.cond.span())));
+                }
+            }
+        }
         self.loops.push(format!(
-            "{{\"kind\":\"loop\",\"kw\":{},\"span\":{},\"body\":{},\"label\":{}}}",
+            "{{\"kind\":\"loop\",\"kw\":{},\"span\":{},\"body\":{},\"label\":{},\"head_break\":{}}}",
             sp(kw),
             sp(self.src.span(e.span())),
             sp(b),
-            e.label.is_some()
+            e.label.is_some(),
+            head_break
         ));
         visit::visit_expr_loop(self, e);
     }
@@ -220,6 +249,12 @@ impl<'a, 'ast> Visit<'ast> for BodyV<'a> {
                 self.call_of.insert(self.src.span(c.span()).0, cs);
             }
         }
+        if let syn::Expr::Path(pth) = &*e.receiver {
+            if pth.path.is_ident("self") && e.turbofish.is_none() {
+                let args: Vec<String> = e.args.iter().map(|a| sp(self.src.span(a.span()))).collect();
+                self.calls.push(format!("{{\"form\":\"self_method\",\"name\":{},\"span\":{},\"args\":[{}],\"in_closure\":{}}}", js(&e.method.to_string()), sp(cs), args.join(","), self.in_closure > 0));
+            }
+        }
         visit::visit_expr_method_call(self, e);
     }
     fn visit_expr_call(&mut self, e: &'ast syn::ExprCall) {
@@ -227,6 +262,15 @@ impl<'a, 'ast> Visit<'ast> for BodyV<'a> {
         for a in e.args.iter() {
             if let syn::Expr::Closure(c) = a {
                 self.call_of.insert(self.src.span(c.span()).0, cs);
+            }
+        }
+        if let syn::Expr::Path(pth) = &*e.func {
+            let segs: Vec<String> = pth.path.segments.iter().map(|s| s.ident.to_string()).collect();
+            let plain = pth.qself.is_none() && pth.path.segments.iter().all(|s| s.arguments.is_none());
+            let form = if plain && segs.len() == 1 { Some("path") } else if plain && segs.len() == 2 && segs[0] == "Self" { Some("self_path") } else { None };
+            if let Some(form) = form {
+                let args: Vec<String> = e.args.iter().map(|a| sp(self.src.span(a.span()))).collect();
+                self.calls.push(format!("{{\"form\":{},\"name\":{},\"span\":{},\"args\":[{}],\"in_closure\":{}}}", js(form), js(segs.last().unwrap()), sp(cs), args.join(","), self.in_closure > 0));
             }
         }
         visit::visit_expr_call(self, e);
@@ -254,7 +298,9 @@ impl<'a, 'ast> Visit<'ast> for BodyV<'a> {
             body_is_block,
             !matches!(e.output, syn::ReturnType::Default)
         ));
+        self.in_closure += 1;
         visit::visit_expr_closure(self, e);
+        self.in_closure -= 1;
     }
     fn visit_arm(&mut self, a: &'ast syn::Arm) {
         let has_or = matches!(&a.pat, syn::Pat::Or(_));
@@ -370,10 +416,11 @@ impl<'a> Ctx<'a> {
                     };
                     let is_mut_ref = matches!(&*t.ty, syn::Type::Reference(r) if r.mutability.is_some());
                     params.push(format!(
-                        "{{\"name\":{},\"span\":{},\"pat\":{},\"mut_ref\":{}}}",
+                        "{{\"name\":{},\"span\":{},\"pat\":{},\"ty\":{},\"mut_ref\":{}}}",
                         js(&n),
                         sp(self.src.span(t.span())),
                         sp(self.src.span(t.pat.span())),
+                        sp(self.src.span(t.ty.span())),
                         is_mut_ref
                     ));
                 }
@@ -391,6 +438,10 @@ impl<'a> Ctx<'a> {
             call_of: Default::default(),
             consts: vec![],
             and_thens: vec![],
+            calls: vec![],
+            returns: 0,
+            tries: 0,
+            in_closure: 0,
         };
         let body = match block {
             Some(b) => {
@@ -407,7 +458,7 @@ impl<'a> Ctx<'a> {
         };
         let sig_span = self.src.span(sig.span());
         let rec = format!(
-            "{{\"rec\":\"fn\",\"mods\":{},\"qual\":{},\"name\":{},\"path\":{},\"cfg_test\":{},\"item\":{},\"vis\":{},\"sig\":{},\"ident\":{},\"out_ty\":{},\"where\":{},\"params\":[{}],\"body\":{},\"semi\":{},\"loops\":[{}],\"closures\":[{}],\"arms\":[{}],\"macros\":[{}],\"binders\":[{}],\"strlits\":[{}],\"consts\":[{}],\"and_thens\":[{}],\"nested_fns\":{}}}",
+            "{{\"rec\":\"fn\",\"mods\":{},\"qual\":{},\"name\":{},\"path\":{},\"cfg_test\":{},\"item\":{},\"vis\":{},\"sig\":{},\"ident\":{},\"out_ty\":{},\"where\":{},\"params\":[{}],\"body\":{},\"semi\":{},\"loops\":[{}],\"closures\":[{}],\"arms\":[{}],\"macros\":[{}],\"binders\":[{}],\"strlits\":[{}],\"consts\":[{}],\"and_thens\":[{}],\"calls\":[{}],\"returns\":{},\"tries\":{},\"generic\":{},\"nested_fns\":{}}}",
             js(&self.mods.join("::")),
             js(&self.qual.join("::")),
             js(&name),
@@ -430,6 +481,10 @@ impl<'a> Ctx<'a> {
             bv.strlits.join(","),
             bv.consts.join(","),
             bv.and_thens.join(","),
+            bv.calls.join(","),
+            bv.returns,
+            bv.tries,
+            !sig.generics.params.is_empty(),
             bv.nested_fns
         );
         self.out.push(rec);
